@@ -90,7 +90,7 @@ arm_change_contracts('_Softmax', SOFT_MAPS + ['arm_to_exponent', 'arm_to_expecta
                      rem_req=['slen(self.arms) > 0'])
 
 from specs.base_mab import warm_start_contracts
-warm_start_contracts('softmax', '_Softmax', SOFT_MAPS, derived_maps=['arm_to_exponent', 'arm_to_expectation'],
+warm_start_contracts('softmax', '_Softmax', SOFT_MAPS, derived_maps=['arm_to_exponent', 'arm_to_expectation'], pre_inv='INV~soft',
                      copy_extra_ensures=['[exponent] ' + forall_arms('val(self.arm_to_exponent, a) == ' + EXPO),
                                          '[share] ' + forall_arms('val(self.arm_to_expectation, a) == '
                                                                   'val(self.arm_to_exponent, a) / msum(self.arm_to_exponent)')])
